@@ -269,7 +269,8 @@ def check(R, F):
     ok = False
     for b, t in soas:
         g = paths.direct_guards(aa, b)
-        if any(re.match(r'^Eq\(var:\w+,0_\w+\) not in \[0\]$', x) for x in g):
+        # the count of RRsets written: a counter variable, or the result of a fold / try_fold / count over the RRsets
+        if any(re.match(r'^Eq\((var:\w+|.*\b(try_fold|fold|count)\(.*),0_\w+\) not in \[0\]$', x) for x in g):
             ok = True
     R.require(ok, 'outcome-table', Q + 'answer_any|Found-empty-soa', aa.where(), 'SOA added under n_added == 0 in the Found arm',
               'answer_any no longer adds the negative-caching SOA exactly when no RRset was written')
